@@ -167,11 +167,116 @@ func c31Compressor(codec int) kgo.Compressor {
 	return c
 }
 
+type c31DecEntry struct {
+	enc []byte
+	rec kmsg.Record
+}
+type c31DecompEntry struct {
+	codec   int
+	in, out []byte
+	ok      bool
+}
+type c31HashEntry struct {
+	alg     int
+	payload []byte
+	hex     string
+}
 type c31Tables struct {
-	dec    [][2]string // framed record bytes (coq) -> rec term
-	decomp []string
-	hash   []string
+	dec    []c31DecEntry // framed record bytes -> kmsg's decoding
+	decomp []c31DecompEntry
+	hash   []c31HashEntry
+	blobs  [][]byte // input batches and partitions (shared in the emitted term)
 	seenD  map[string]bool
+}
+
+// c31Intern shares byte strings inside one emitted case: long strings (record frames,
+// envelopes, object keys, digests, payloads) become let-bound names and larger blobs are
+// written as concatenations of those names and literal chunks.  Bytes are written with the
+// constants b00..bff of corr/RewriteCorr.v (number literals are ~3x slower to elaborate).
+type c31Intern struct {
+	vals  [][]byte
+	seen  map[string]bool
+	names []string
+	defs  []string
+}
+
+func (in *c31Intern) add(b []byte) {
+	if len(b) < 12 {
+		return
+	}
+	if in.seen == nil {
+		in.seen = map[string]bool{}
+	}
+	if in.seen[string(b)] {
+		return
+	}
+	in.seen[string(b)] = true
+	in.vals = append(in.vals, append([]byte(nil), b...))
+}
+func (in *c31Intern) finalize() {
+	sort.SliceStable(in.vals, func(i, j int) bool { return len(in.vals[i]) < len(in.vals[j]) })
+	in.names = make([]string, len(in.vals))
+	in.defs = make([]string, len(in.vals))
+	for i := range in.vals {
+		in.names[i] = fmt.Sprintf("s%d", i)
+		in.defs[i] = in.emitUsing(in.vals[i], i)
+	}
+}
+func c31Lit(b []byte) string {
+	if len(b) == 0 {
+		return "[]"
+	}
+	var sb strings.Builder
+	sb.WriteByte('[')
+	for i, x := range b {
+		if i > 0 {
+			sb.WriteByte(';')
+		}
+		fmt.Fprintf(&sb, "b%02x", x)
+	}
+	sb.WriteByte(']')
+	return sb.String()
+}
+func (in *c31Intern) emitUsing(b []byte, limit int) string {
+	if len(b) == 0 {
+		return "[]"
+	}
+	for j := limit - 1; j >= 0; j-- {
+		v := in.vals[j]
+		if len(v) > len(b) {
+			continue
+		}
+		idx := bytes.Index(b, v)
+		if idx < 0 {
+			continue
+		}
+		var parts []string
+		if idx > 0 {
+			parts = append(parts, in.emitUsing(b[:idx], j+1))
+		}
+		parts = append(parts, in.names[j])
+		if rest := b[idx+len(v):]; len(rest) > 0 {
+			parts = append(parts, in.emitUsing(rest, j+1))
+		}
+		if len(parts) == 1 {
+			return parts[0]
+		}
+		return "(" + strings.Join(parts, " ++ ") + ")"
+	}
+	return c31Lit(b)
+}
+func (in *c31Intern) B(b []byte) string   { return in.emitUsing(b, len(in.vals)) }
+func (in *c31Intern) S(s string) string   { return in.B([]byte(s)) }
+func (in *c31Intern) Opt(b []byte) string { return cqOpt(b != nil, in.B(b)) }
+func (in *c31Intern) wrap(term string) string {
+	var sb strings.Builder
+	sb.WriteByte('(')
+	for i := range in.vals {
+		fmt.Fprintf(&sb, "let %s := %s in ", in.names[i], in.defs[i])
+	}
+	sb.WriteString(term)
+	sb.WriteByte(')')
+	return sb.String()
 }
 
 func c31BuildBatch(b c31Batch, tb *c31Tables) []byte {
@@ -183,7 +288,7 @@ func c31BuildBatch(b c31Batch, tb *c31Tables) []byte {
 			tb.seenD[string(enc)] = true
 			var back kmsg.Record
 			if err := back.ReadFrom(enc); err == nil {
-				tb.dec = append(tb.dec, [2]string{cqBytes(enc), c31CoqRec(back)})
+				tb.dec = append(tb.dec, c31DecEntry{enc, back})
 			}
 		}
 	}
@@ -195,7 +300,7 @@ func c31BuildBatch(b c31Batch, tb *c31Tables) []byte {
 	}
 	if tb != nil && b.Codec != 0 {
 		res, err := kgo.DefaultDecompressor().Decompress(payload, kgo.CompressionCodecType(b.Codec))
-		tb.decomp = append(tb.decomp, fmt.Sprintf("(%d, %s, %s)", b.Codec, cqBytes(payload), cqOpt(err == nil, cqBytes(res))))
+		tb.decomp = append(tb.decomp, c31DecompEntry{b.Codec, payload, res, err == nil})
 	}
 	kb := kmsg.RecordBatch{
 		FirstOffset: b.First, PartitionLeaderEpoch: b.PLE, Magic: b.Magic,
@@ -213,10 +318,17 @@ func c31BuildBatch(b c31Batch, tb *c31Tables) []byte {
 func c31BuildPartition(p c31Part, tb *c31Tables) []byte {
 	var out []byte
 	for _, b := range p.Batches {
-		out = append(out, c31BuildBatch(b, tb)...)
+		bb := c31BuildBatch(b, tb)
+		if tb != nil {
+			tb.blobs = append(tb.blobs, bb)
+		}
+		out = append(out, bb...)
 	}
 	if p.Trunc > 0 && p.Trunc < len(out) {
 		out = out[:len(out)-p.Trunc]
+	}
+	if tb != nil {
+		tb.blobs = append(tb.blobs, out)
 	}
 	return out
 }
@@ -493,30 +605,26 @@ func c31Oracle(cs c31Case, obs c31Obs) (string, string) {
 }
 
 // ---------- Coq emission ----------
-func c31OptBytes(b []byte) string { return cqOpt(b != nil, cqBytes(b)) }
-func c31CoqRec(r kmsg.Record) string {
+func c31CoqRec(in *c31Intern, r kmsg.Record) string {
 	hs := make([]string, len(r.Headers))
 	for i, h := range r.Headers {
-		hs[i] = fmt.Sprintf("mkHeader %s %s", cqStr(h.Key), c31OptBytes(h.Value))
+		hs[i] = fmt.Sprintf("mkHeader %s %s", in.S(h.Key), in.Opt(h.Value))
 	}
-	return fmt.Sprintf("mkRec %s %s %s %s %s %s", cqZ(int64(r.Attributes)), cqZ(r.TimestampDelta64), cqZ(int64(r.OffsetDelta)), c31OptBytes(r.Key), c31OptBytes(r.Value), cqList(hs))
+	return fmt.Sprintf("mkRec %s %s %s %s %s %s", cqZ(int64(r.Attributes)), cqZ(r.TimestampDelta64), cqZ(int64(r.OffsetDelta)), in.Opt(r.Key), in.Opt(r.Value), cqList(hs))
 }
-func c31CoqKV(kv [][2][]byte) string {
-	it := make([]string, len(kv))
-	for i, x := range kv {
-		it[i] = fmt.Sprintf("(%s, %s)", cqBytes(x[0]), cqBytes(x[1]))
-	}
-	return cqList(it)
+
+type c31EnvEntry struct {
+	env  lfs.Envelope
+	keys []string
+	json []byte
 }
-func c31CoqBytesList(l [][]byte) string {
-	it := make([]string, len(l))
-	for i, x := range l {
-		it[i] = cqBytes(x)
-	}
-	return cqList(it)
+type c31CompEntry struct {
+	codec    int
+	raw, out []byte
 }
 
 func c31Coq(cs c31Case, obs c31Obs, tb *c31Tables) string {
+	in := &c31Intern{}
 	// hashes of every flagged payload
 	for _, t := range cs.Topics {
 		for _, p := range t.Parts {
@@ -529,15 +637,14 @@ func c31Coq(cs c31Case, obs c31Obs, tb *c31Tables) string {
 					md := md5.Sum(r.Val)
 					c := crc32.NewIEEE()
 					c.Write(r.Val)
-					tb.hash = append(tb.hash, fmt.Sprintf("(0, %s, %s)", cqBytes(r.Val), cqStr(hex.EncodeToString(s[:]))),
-						fmt.Sprintf("(1, %s, %s)", cqBytes(r.Val), cqStr(hex.EncodeToString(md[:]))),
-						fmt.Sprintf("(2, %s, %s)", cqBytes(r.Val), cqStr(hex.EncodeToString(c.Sum(nil)))))
+					tb.hash = append(tb.hash, c31HashEntry{0, r.Val, hex.EncodeToString(s[:])}, c31HashEntry{1, r.Val, hex.EncodeToString(md[:])}, c31HashEntry{2, r.Val, hex.EncodeToString(c.Sum(nil))})
 				}
 			}
 		}
 	}
 	// envelope and compression tables from the rewritten output (only meaningful without error)
-	var envs, comps []string
+	var envs []c31EnvEntry
+	var comps []c31CompEntry
 	created := map[string]string{}
 	if obs.code == 0 {
 		for pi := range obs.out {
@@ -552,7 +659,7 @@ func c31Coq(cs c31Case, obs c31Obs, tb *c31Tables) string {
 				if b.codec != 0 {
 					raw, err := kgo.DefaultDecompressor().Decompress(b.hdr.Records, kgo.CompressionCodecType(b.codec))
 					if err == nil {
-						comps = append(comps, fmt.Sprintf("(%d, %s, (%s, %d))", b.codec, cqBytes(raw), cqBytes(b.hdr.Records), b.codec))
+						comps = append(comps, c31CompEntry{b.codec, raw, b.hdr.Records})
 					}
 				}
 				for _, r := range b.recs {
@@ -565,20 +672,65 @@ func c31Coq(cs c31Case, obs c31Obs, tb *c31Tables) string {
 						keys = append(keys, k)
 					}
 					sort.Strings(keys)
-					oh := make([]string, len(keys))
-					for i, k := range keys {
-						oh[i] = fmt.Sprintf("(%s, %s)", cqStr(k), cqStr(env.OriginalHeaders[k]))
-					}
 					created[env.Key] = env.CreatedAt
-					envs = append(envs, fmt.Sprintf("(mkEnv %s %s %s %s %s %s %s %s %s %s, %s)", cqStr(env.Bucket), cqStr(env.Key), cqZ(env.Size),
-						cqStr(env.SHA256), cqStr(env.Checksum), cqStr(env.ChecksumAlg), cqStr(env.ContentType), cqList(oh), cqStr(env.CreatedAt), cqStr(env.ProxyID), cqBytes(r.Value)))
+					envs = append(envs, c31EnvEntry{env, keys, r.Value})
 				}
 			}
 		}
 	}
+	// intern the long strings
+	for _, d := range tb.dec {
+		in.add(d.enc)
+		in.add(d.rec.Value)
+		in.add(d.rec.Key)
+		for _, h := range d.rec.Headers {
+			in.add(h.Value)
+		}
+	}
+	for _, h := range tb.hash {
+		in.add([]byte(h.hex))
+	}
+	for _, e := range envs {
+		in.add(e.json)
+		in.add([]byte(e.env.CreatedAt))
+	}
+	for _, k := range obs.asked {
+		in.add([]byte(k))
+	}
+	for _, b := range tb.blobs {
+		in.add(b)
+	}
+	for _, d := range tb.decomp {
+		in.add(d.in)
+	}
+	in.add([]byte("verif-proxy"))
+	in.finalize()
+
+	hash := make([]string, len(tb.hash))
+	for i, h := range tb.hash {
+		hash[i] = fmt.Sprintf("(%d, %s, %s)", h.alg, in.B(h.payload), in.S(h.hex))
+	}
+	envT := make([]string, len(envs))
+	for i, e := range envs {
+		oh := make([]string, len(e.keys))
+		for j, k := range e.keys {
+			oh[j] = fmt.Sprintf("(%s, %s)", in.S(k), in.S(e.env.OriginalHeaders[k]))
+		}
+		env := e.env
+		envT[i] = fmt.Sprintf("(mkEnv %s %s %s %s %s %s %s %s %s %s, %s)", in.S(env.Bucket), in.S(env.Key), cqZ(env.Size),
+			in.S(env.SHA256), in.S(env.Checksum), in.S(env.ChecksumAlg), in.S(env.ContentType), cqList(oh), in.S(env.CreatedAt), in.S(env.ProxyID), in.B(e.json))
+	}
+	compT := make([]string, len(comps))
+	for i, c := range comps {
+		compT[i] = fmt.Sprintf("(%d, %s, (%s, %d))", c.codec, in.B(c.raw), in.B(c.out), c.codec)
+	}
+	decompT := make([]string, len(tb.decomp))
+	for i, d := range tb.decomp {
+		decompT[i] = fmt.Sprintf("(%d, %s, %s)", d.codec, in.B(d.in), cqOpt(d.ok, in.B(d.out)))
+	}
 	supply := make([]string, len(obs.asked))
 	for i, k := range obs.asked {
-		supply[i] = fmt.Sprintf("(%s, %s)", cqStr(k), cqStr(created[k]))
+		supply[i] = fmt.Sprintf("(%s, %s)", in.S(k), in.S(created[k]))
 	}
 	faults := make([]string, len(cs.Faults))
 	for i, f := range cs.Faults {
@@ -586,16 +738,27 @@ func c31Coq(cs c31Case, obs c31Obs, tb *c31Tables) string {
 	}
 	dec := make([]string, len(tb.dec))
 	for i, d := range tb.dec {
-		dec[i] = fmt.Sprintf("(%s, %s)", d[0], d[1])
+		dec[i] = fmt.Sprintf("(%s, %s)", in.B(d.enc), c31CoqRec(in, d.rec))
 	}
 	orph := make([]string, len(obs.orphans))
 	for i, k := range obs.orphans {
-		orph[i] = cqStr(k)
+		orph[i] = in.S(k)
 	}
-	cfg := fmt.Sprintf("(mkCfg %s %s %s %s %d)", cqStr(cs.Bucket), cqStr("verif-proxy"), cqZ(cs.MaxBlob), cqStr(cs.DefaultAlg), 5<<20)
-	return fmt.Sprintf("mkCase %s %s %s %s %s %s %s %s %s %s %s %s %s %s %s", cfg, c31CoqBytesList(obs.in), cqList(supply), cqList(faults),
-		cqList(dec), cqList(tb.decomp), cqList(comps), cqList(tb.hash), cqList(envs),
-		cqZ(int64(obs.code)), c31CoqBytesList(obs.out), c31CoqKV(obs.store), cqZ(obs.bytes), cqList(orph), cqBool(obs.modified))
+	bl := func(l [][]byte) string {
+		it := make([]string, len(l))
+		for i, x := range l {
+			it[i] = in.B(x)
+		}
+		return cqList(it)
+	}
+	store := make([]string, len(obs.store))
+	for i, x := range obs.store {
+		store[i] = fmt.Sprintf("(%s, %s)", in.B(x[0]), in.B(x[1]))
+	}
+	cfg := fmt.Sprintf("(mkCfg %s %s %s %s %d)", in.S(cs.Bucket), in.S("verif-proxy"), cqZ(cs.MaxBlob), in.S(cs.DefaultAlg), 5<<20)
+	return in.wrap(fmt.Sprintf("mkCase %s %s %s %s %s %s %s %s %s %s %s %s %s %s %s", cfg, bl(obs.in), cqList(supply), cqList(faults),
+		cqList(dec), cqList(decompT), cqList(compT), cqList(hash), cqList(envT),
+		cqZ(int64(obs.code)), bl(obs.out), cqList(store), cqZ(obs.bytes), cqList(orph), cqBool(obs.modified)))
 }
 
 // ---------- generator ----------
@@ -609,7 +772,7 @@ func c31GenBytes(r *vRand, allowNil bool) []byte {
 	case 1:
 		return []byte{}
 	default:
-		return r.Bytes(r.Range(1, 24))
+		return r.Bytes(r.Range(1, 14))
 	}
 }
 
@@ -711,7 +874,7 @@ func c31GenBatch(r *vRand, flagPct int, malformed bool) c31Batch {
 	if r.Chance(5) {
 		b.First, b.FTS, b.PID, b.Attrs = int64(r.U64()), int64(r.U64()), int64(r.U64()), int16(r.U64())&^7
 	}
-	n := r.Range(1, 4)
+	n := r.Range(1, 3)
 	for i := 0; i < n; i++ {
 		b.Recs = append(b.Recs, c31GenRec(r, flagPct, i))
 	}
@@ -752,14 +915,20 @@ func c31Gen(r *vRand) c31Case {
 		// make errors rarer so that most requests are rewritten completely
 		flagPct = flagPct / 2
 	}
-	nt := r.Range(1, 2)
+	nt := 1
+	if r.Chance(30) {
+		nt = 2
+	}
 	names := []string{"orders", "events", "t.1", "A_b-c"}
 	for ti := 0; ti < nt; ti++ {
 		t := c31Topic{Name: names[r.Intn(len(names))]}
-		np := r.Range(1, 2)
+		np := 1
+		if r.Chance(40) {
+			np = 2
+		}
 		for pi := 0; pi < np; pi++ {
 			p := c31Part{Index: int32(r.Range(0, 5))}
-			nb := r.Range(1, 3)
+			nb := []int{1, 1, 1, 2, 2, 3}[r.Intn(6)]
 			if r.Chance(5) {
 				nb = 0
 			}
@@ -894,7 +1063,7 @@ func c31Shrink(cs c31Case, key string) c31Case {
 }
 
 func TestVerifC31(t *testing.T) {
-	rep := vNewReport("C31", "generated produce requests (1-2 topics x 1-2 partitions x 0-3 batches x 1-4 records; codecs none/gzip/snappy/lz4/zstd; null/empty/non-empty keys, values, header values; arbitrary record attributes/timestamp deltas/offset deltas and batch header fields; LFS_BLOB / LFS_BLOB_ALG variants incl. mismatching checksums; ~12% malformed shapes; S3 put faults) through the real rewriteProduceRecords; a case is non-trivial when it is well formed, rewritten without error, and contains both a flagged and an unflagged record; distinct = distinct canonical JSON of the case")
+	rep := vNewReport("C31", "generated produce requests (1-2 topics x 1-2 partitions x 0-3 batches x 1-3 records; codecs none/gzip/snappy/lz4/zstd; null/empty/non-empty keys, values, header values; arbitrary record attributes/timestamp deltas/offset deltas and batch header fields; LFS_BLOB / LFS_BLOB_ALG variants incl. mismatching checksums; ~12% malformed shapes; S3 put faults) through the real rewriteProduceRecords; a case is non-trivial when it is well formed, rewritten without error, and contains both a flagged and an unflagged record; distinct = distinct canonical JSON of the case")
 	var coq, jsons []string
 	runOne := func(cs c31Case) {
 		tb := &c31Tables{seenD: map[string]bool{}}
@@ -979,7 +1148,7 @@ func TestVerifC31(t *testing.T) {
 			runOne(cs)
 		}
 		r := vNewRand(vSeed())
-		n := vN(260, 2500)
+		n := vN(40, 400)
 		for i := 0; i < n; i++ {
 			cs := c31Gen(r.Fork())
 			if i%3 != 0 {
